@@ -181,6 +181,20 @@ CLAIMED = {
         note=BASE_NOTE + "Modelled, not verified: goyacc tables and error recovery, the lexer. bash/dash were reference recognisers while building only.",
         technique="Coq proof (accepted <=> derivable, rejected => not derivable) on the grammar model + token-tap correspondence + located-error check",
         design="6 C03"),
+    "C09": dict(
+        text=("Character level. Model of what the scanner makes of the text between two tokens (blank/newline/comment cases of scanRawToken, the line "
+              "continuation, linebreak()). Proved for every layout of the stated shape and every following text: blanks, tabs and backslash-newline only "
+              "separate two tokens; a comment before the newline, then any blank or comment lines and the next line's indentation, end the line and are "
+              "returned once, in order, with their text; at the line break after && || | blank lines, comment lines, blanks and continuations are skipped. "
+              "The model is tied to the lexer on every run by ALL strings of <=4 (thorough 5) items over the layout alphabet {blank, tab, backslash-newline, "
+              "comments, newline, bare #} in argument position and after && | ||: the program must equal the canonical rendering the model predicts and the "
+              "comments must be the predicted ones. NOT proved (decided on every run by metamorphic pairs): that tokens are scanned alike under every "
+              "layout, optional blanks around operators, newline for ';' (token level: the grammar relation of C02 gives both the same skeleton) -- each "
+              "program structure is rendered under independent layouts (plain/rich text generator; grammar derivations with independent newline-token, "
+              "separator and blank/comment/continuation streams) and must parse to the same skeleton with exactly its own comments. Known finding F45."),
+        note=BASE_NOTE + "Modelled, not verified: the rest of scanRawToken (word and operator scanning).",
+        technique="Coq proof on a layout-scanner model + exhaustive correspondence over the layout alphabet + metamorphic layout pairs",
+        design="6 C09"),
     "C19": dict(
         text=("Proved: Option.String is total on every bit combination (loop bound translated from the source on every run). NOT proved: totality of "
               "printer / Pos / End / Expand on parser-produced ASTs and of Eval / Match / Glob on arbitrary strings; decided on every run in isolated "
@@ -200,13 +214,6 @@ EXPLORATION = {
         note="Implementation-side metamorphic test; no model.",
         technique="exploration: print -> parse round trip under all styles (no proof yet)",
         design="6 C05"),
-    "C09": dict(
-        text=("No theorem yet (the lexer model is under construction). Decided on every run, implementation side: each program structure rendered under a "
-              "plain and a rich layout (extra blanks, tabs, comments before newlines and on own lines, backslash-newline between tokens, newline for ';', "
-              "blank lines) from independent layout streams must parse to the same skeleton and return exactly its own comments in order."),
-        note="Implementation-side metamorphic test; no model.",
-        technique="exploration: layout metamorphic check (no proof yet)",
-        design="6 C09"),
 }
 
 def hook_commits():
